@@ -14,7 +14,7 @@
 (*   k = "hdr"     a = section kind: the whole line, lower-cased, is a key *)
 (*                 of _section_kind                             column 0   *)
 (*   k = "line"    any other line; a = what the item regexes see:          *)
-(*        N  `name`  (also prose that starts with a letter)                *)
+(*        N  `name`  a plain identifier     P  prose starting with a letter *)
 (*        NT `name : type`     NK `name :`      C `:`      CT `: type`     *)
 (*        NN `n, m : type`     NC `name : {a, b}`   ND `name : type, default d` *)
 (*        F  `name(sig)`       X  starts with neither letter, `_`, `*` nor `:` *)
@@ -25,7 +25,7 @@
 (***************************************************************************)
 EXTENDS Integers, Sequences, FiniteSets, TLC, Json
 
-CONSTANTS MaxLen, Alpha, Mode, MaxSecs, Variety, Emit
+CONSTANTS MaxLen, Alpha, Mode, MaxSecs, Variety, Emit, EmitMod
 
 VARIABLES lines, expect, sig, opts, pcand, excl, pc, offset, in_code, cur, adm, sections, crash, flags
 vars == <<lines, expect, sig, opts, pcand, excl, pc, offset, in_code, cur, adm, sections, crash, flags>>
@@ -33,7 +33,8 @@ input == <<lines, expect, sig>>
 
 OptNames == {"ignore_init_summary"}     \* trim_doctest_flags, warn_unknown_params decide no branch: varied by the harness
 \* tuplefn: function returning tuple[int, str]; genfn: function returning Generator[tuple[..], tuple[..], tuple[..]]
-Parents == {"none", "module", "class", "function", "init", "property", "tuplefn", "genfn"}
+\* aliasmod: a module in which every documented name is imported from a package that is not loaded (unresolvable alias)
+Parents == {"none", "module", "class", "function", "init", "property", "tuplefn", "genfn", "aliasmod"}
 
 ParamKinds == {"parameters", "other_parameters"}
 RetKinds == {"returns", "yields", "receives"}
@@ -53,10 +54,12 @@ Prompt(i)  == [k |-> "prompt", ind |-> i, a |-> "-"]
 CoreKinds == {"parameters", "returns", "attributes", "examples", "deprecated"}
 Core == {Blank, Dash(0), Dash(4), FenceL(0), Prompt(0), Ln(2, "X"), Ln(4, "X")}
           \cup {Hdr(K) : K \in CoreKinds} \cup {Ln(0, f) : f \in {"N", "NT", "C", "X"}}
-Mid == Core \cup {Hdr(K) : K \in SecKinds} \cup {Ln(0, f) : f \in {"NK", "CT", "NN", "NC", "ND", "F"}} \cup {FenceL(4), Ln(4, "C"), Ln(4, "NT")}
+Mid == Core \cup {Hdr(K) : K \in SecKinds} \cup {Ln(0, f) : f \in {"P", "NK", "CT", "NN", "NC", "ND", "F"}} \cup {FenceL(4), Ln(4, "C"), Ln(4, "NT")}
 \* the crashes of the pinned tree: attributes + `:`; returns / receives + three untyped items under a tuple / generator parent
 Defect == {Dash(0), Hdr("returns"), Hdr("receives"), Hdr("attributes"), Ln(0, "C")}
-Alphabet == CASE Alpha = "core" -> Core [] Alpha = "mid" -> Mid [] Alpha = "rich" -> Mid [] OTHER -> Defect
+\* ... attributes + a plain name under a parent in which that name is an unresolvable alias
+Defect2 == {Dash(0), Hdr("attributes"), Ln(0, "C"), Ln(0, "N"), Ln(4, "X")}
+Alphabet == CASE Alpha = "core" -> Core [] Alpha = "mid" -> Mid [] Alpha = "rich" -> Mid [] Alpha = "defect2" -> Defect2 [] OTHER -> Defect
 
 \* ---- predicates on lines ----------------------------------------------------------------------------
 N == Len(lines)
@@ -66,9 +69,9 @@ IsBlank(ln) == ln.k = "blank"               \* _is_empty_line
 IsDash(ln) == ln.k = "dash"                 \* _is_dash_line
 StartsFence(ln) == ln.k = "fence"
 IsKeyword(ln) == ln.k = "hdr"               \* line_lower in _section_kind
-Form(ln) == IF ln.k = "line" THEN ln.a ELSE IF ln.k = "hdr" THEN "N" ELSE "X"      \* a keyword is also a plain name
+Form(ln) == IF ln.k = "line" THEN ln.a ELSE IF ln.k = "hdr" THEN "P" ELSE "X"      \* a keyword is prose that starts with a letter
 \* _RE_PARAMETER.match(item[0]): the line starts with an optional `*`/`**` and an identifier, in column 0
-ParamMatch(ln) == ln.ind = 0 /\ Form(ln) \in {"N", "NT", "NK", "NN", "NC", "ND", "F"}
+ParamMatch(ln) == ln.ind = 0 /\ Form(ln) \in {"N", "P", "NT", "NK", "NN", "NC", "ND", "F"}
 NameCount(ln) == IF Form(ln) = "NN" THEN 2 ELSE 1
 HasColon(ln) == Form(ln) \in {"NT", "NK", "C", "CT", "NN", "NC", "ND"}
 
@@ -124,6 +127,7 @@ ParamEl(it) ==
   CASE f \in {"NT", "NN"} -> El(it, NameCount(ln), "n", "doc", SigDef(it), "r")
     [] f = "NC" -> El(it, 1, "n", "doc", "doc", "r")                  \* choices: the first one is the default
     [] f = "ND" -> El(it, 1, "n", "doc", "doc", "r")
+    [] f = "P"  -> El(it, 1, "x", SigAnn(it), SigDef(it), "r")        \* the first word is taken as the name
     [] OTHER    -> El(it, 1, "n", SigAnn(it), SigDef(it), "r")        \* N, NK, F: the name alone matched
 RECURSIVE MapParams(_, _)
 MapParams(items, acc) ==
@@ -149,7 +153,19 @@ AttrEl(it) ==
     [] f = "C"  -> El(it, 1, "e", "none", "-", "n")
     [] f = "N"  -> El(it, 1, "n", SigAnn(it), "-", "n")               \* no colon: the whole line is the name
     [] OTHER    -> El(it, 1, "l", "none", "-", "n")
-AttrEmptyLookup(items) == \E j \in 1..Len(items) : Form(L(items[j].first)) = "C"     \* docstring.parent[""]
+\* hazards of `docstring.parent[name].annotation` under suppress(AttributeError, KeyError, TypeError), in item order:
+\* "empty" name "" (ValueError with any parent), "alias" a plain name that is an unresolvable alias (AliasResolutionError)
+RECURSIVE AttrHazards(_, _)
+AttrHazards(items, acc) ==
+  IF items = <<>> THEN acc
+  ELSE LET ln == L(Head(items).first) f == Form(ln) IN
+       AttrHazards(Tail(items), IF f = "C" THEN Append(acc, "empty")
+                                ELSE IF (f = "NK" \/ (f = "N" /\ ln.ind = 0)) /\ ~sig[Head(items).first + 1].ann THEN Append(acc, "alias") ELSE acc)
+ParentClass == [none |-> {"none"}, alias |-> {"aliasmod"}, other |-> Parents \ {"none", "aliasmod"}]
+HazardOutcome(hz, cls) ==
+  CASE cls = "none" -> ""
+    [] cls = "alias" -> IF hz[1] = "empty" THEN "ValueError" ELSE "AliasResolutionError"
+    [] OTHER -> IF \E j \in 1..Len(hz) : hz[j] = "empty" THEN "ValueError" ELSE ""
 
 SigEl(it) == LET f == Form(L(it.first)) IN IF f = "F" THEN El(it, 1, "n", "doc", "-", "s") ELSE El(it, 1, IF f = "N" THEN "n" ELSE "l", "none", "-", "s")
 AnnEl(it) == El(it, 1, "-", "l", "-", "n")
@@ -189,7 +205,6 @@ Split(P, b) == IF b THEN pcand \cap P ELSE pcand \ P
 
 \* =========================================== the case space ===========================================================
 NoSig == [ann |-> FALSE, def |-> FALSE]
-SeqDocs == UNION {[1..n -> Alphabet] : n \in 1..MaxLen}
 CleandocFixedPoint(d) ==
   /\ d[1].ind = 0 /\ ~IsBlank(d[1]) /\ ~IsBlank(d[Len(d)])
   /\ (Len(d) > 1 => \E j \in 2..Len(d) : ~IsBlank(d[j]) /\ d[j].ind = 0)
@@ -290,8 +305,15 @@ RenderAll(st, acc) ==
 RenderLines(st) == RenderAll(st, [lines |-> <<Ln(0, "N")>>, sig |-> <<NoSig>>, expect |-> <<TextSec(<<0>>)>>])
 
 \* ---- Init -----------------------------------------------------------------------------------------------------
+\* every cleandoc-stable sequence of 1..MaxLen classes (enumerated piecewise: first line, middle, last line), + the empty docstring
+SeqLines ==
+  \/ lines = <<Blank>>
+  \/ \E n \in 1..MaxLen : \E a \in {x \in Alphabet : x.ind = 0 /\ ~IsBlank(x)} :
+       IF n = 1 THEN lines = <<a>>
+       ELSE \E z \in {x \in Alphabet : ~IsBlank(x)}, m \in [1..(n - 2) -> Alphabet] :
+              lines = <<a>> \o m \o <<z>> /\ CleandocFixedPoint(lines)
 InitSeq ==
-  /\ lines \in {d \in SeqDocs : CleandocFixedPoint(d)} \cup {<<Blank>>}      \* + the empty docstring
+  /\ SeqLines
   /\ sig = [j \in 1..Len(lines) |-> NoSig] /\ expect = <<>>
   /\ opts = [o \in OptNames |-> "U"] /\ pcand = Parents
 InitStruct ==
@@ -382,15 +404,16 @@ ReadReturnsSection ==
 
 ReadAttributesSection ==
   /\ pc = "section" /\ Kind = "attributes"
-  /\ LET r == ReadBlockItems(offset + 2) IN
-     IF r.crash # "" THEN Crash(r.crash, "_read_block_items") /\ pcand' = pcand
-     ELSE IF AttrEmptyLookup(r.items)
-       THEN \E isnone \in BOOLEAN :
-              /\ Split({"none"}, isnone) # {} /\ pcand' = Split({"none"}, isnone)
-              /\ IF isnone THEN Return(Append(sections, SecRec(Kind, offset, <<>>, MapEls(r.items, Kind), <<>>)), r.off)
-                 ELSE Crash("ValueError", "attributes")
-     ELSE /\ pcand' = pcand
-          /\ Return(IF r.items # <<>> THEN Append(sections, SecRec(Kind, offset, <<>>, MapEls(r.items, Kind), <<>>)) ELSE sections, r.off)
+  /\ LET r == ReadBlockItems(offset + 2)
+         hz == AttrHazards(r.items, <<>>)
+         done == IF r.items # <<>> THEN Append(sections, SecRec(Kind, offset, <<>>, MapEls(r.items, Kind), <<>>)) ELSE sections
+     IN IF r.crash # "" THEN Crash(r.crash, "_read_block_items") /\ pcand' = pcand
+        ELSE IF hz # <<>>
+          THEN \E o \in {HazardOutcome(hz, c) : c \in {"none", "alias", "other"}} :
+                 LET P == UNION {ParentClass[c] : c \in {c2 \in {"none", "alias", "other"} : HazardOutcome(hz, c2) = o}} IN
+                 /\ pcand \cap P # {} /\ pcand' = pcand \cap P
+                 /\ IF o = "" THEN Return(done, r.off) ELSE Crash(o, "attributes")
+        ELSE /\ pcand' = pcand /\ Return(done, r.off)
   /\ UNCHANGED <<input, opts, excl>>
 
 \* deprecated: the first item only (version = its first line, text = the rest)
@@ -422,10 +445,11 @@ Done == pc = "done"
 Crashed == pc = "crashed"
 Final == Done \/ Crashed
 
-KnownCrashSites == {<<"ValueError", "attributes">>, <<"IndexError", "returns">>, <<"IndexError", "receives">>}
+KnownCrashSites == {<<"ValueError", "attributes">>, <<"AliasResolutionError", "attributes">>, <<"IndexError", "returns">>, <<"IndexError", "receives">>}
 NoCrash == ~Crashed
 \* one invariant per documented defect (checked - and violated - in DocNumpy_defect.cfg)
-NoValueErrorEmptyAttributeName == ~(Crashed /\ crash.at = "attributes")
+NoValueErrorEmptyAttributeName == ~(Crashed /\ crash.at = "attributes" /\ crash.exc = "ValueError")
+NoAliasResolutionErrorInAttributes == ~(Crashed /\ crash.exc = "AliasResolutionError")
 NoIndexErrorTupleOverrun == ~(Crashed /\ crash.exc = "IndexError" /\ crash.at \in {"returns", "receives"})
 NoCrashBeyondKnown == Crashed => <<crash.exc, crash.at>> \in KnownCrashSites
 
@@ -467,8 +491,13 @@ Same(a, b, exact) ==
 ParsesBack == (Mode = "struct" /\ Final) => (Done /\ Same(sections, expect, TRUE))
 ParsesBackBeyondKnown == (Mode = "struct" /\ Final) => (Done /\ Same(sections, expect, FALSE))
 
+\* every state is checked against the invariants; the replay harness gets the final states whose checksum is 0 mod EmitMod
+LineCode(ln) == ln.ind + (CASE ln.k = "blank" -> 1 [] ln.k = "dash" -> 2 [] ln.k = "hdr" -> 3 [] ln.k = "line" -> 5 [] ln.k = "fence" -> 11 [] OTHER -> 13)
+                 + (CASE ln.a \in {"N", "parameters", "-"} -> 0 [] ln.a \in {"NT", "attributes"} -> 17 [] ln.a \in {"C", "returns"} -> 19 [] OTHER -> 23)
+RECURSIVE Checksum(_, _)
+Checksum(j, acc) == IF j > Len(lines) THEN acc ELSE Checksum(j + 1, (acc * 31 + j * LineCode(lines[j])) % 1000003)
 EmitCase ==
-  (Emit /\ Final) =>
+  (Emit /\ Final /\ (EmitMod = 1 \/ Checksum(1, Len(lines)) % EmitMod = 0)) =>
      IF Mode = "seq"
        THEN PrintT(<<"CASE", ToJson([lines |-> lines, opts |-> opts, pcand |-> pcand, excl |-> excl, outcome |-> pc, crash |-> crash,
                                      sections |-> sections, flags |-> flags])>>)
